@@ -25,9 +25,13 @@ type paramSet struct {
 
 func paramSets() []paramSet {
 	mk := func(n int, arr []interface{}, obj map[string]interface{}, s string, f float64) paramSet {
-		g := map[string]interface{}{"n": n, "arr": arr, "obj": obj, "s": s, "f": f}
-		coq := fmt.Sprintf(`[(hx "6e", %s); (hx "617272", %s); (hx "6f626a", %s); (hx "73", %s); (hx "66", %s)]`,
-			goToCoq(n), goToCoq(arr), goToCoq(obj), goToCoq(s), goToCoq(f))
+		big := make([]interface{}, 30)
+		for i := range big {
+			big[i] = map[string]interface{}{"a": (i * 7) % 3, "b": i % 2, "k": i}
+		}
+		g := map[string]interface{}{"n": n, "arr": arr, "obj": obj, "s": s, "f": f, "big": big}
+		coq := fmt.Sprintf(`[(hx "6e", %s); (hx "617272", %s); (hx "6f626a", %s); (hx "73", %s); (hx "66", %s); (hx "626967", %s)]`,
+			goToCoq(n), goToCoq(arr), goToCoq(obj), goToCoq(s), goToCoq(f), goToCoq(big))
 		return paramSet{g, coq}
 	}
 	return []paramSet{
